@@ -85,6 +85,13 @@ theorem ckInt_ok {v : Int} (h1 : -2147483648 ≤ v) (h2 : v ≤ 2147483647) : ck
   unfold ckInt fitsInt INT_MAX
   simp [h1, h2]
 
+/-! ### 4. non-finite values -/
+
+/-- the ISO text of a non-finite value: sign by the minus / plus / space rule, `inf` or `nan`, upper case for F E G -/
+def nfText (isNan neg : Bool) (ops : Ops) : List Char :=
+  signText neg ops ++ (if isNan then (if ops.upper then "NAN".toList else "nan".toList)
+                       else (if ops.upper then "INF".toList else "inf".toList))
+
 theorem ckInt_ok' {v : Int} (h : -2147483648 ≤ v ∧ v ≤ 2147483647) : ckInt v = .ok v := ckInt_ok h.1 h.2
 
 end Igris.C13
